@@ -349,6 +349,10 @@ class Sim:
                             out_stream=None, directional=bool(op.get('directional', False)),
                             method=op.get('method', 'fd'))
 
+    def op_coloring(self, op):
+        import openmdao.utils.coloring as cm
+        cm.compute_total_coloring(self.p, num_full_jacs=op.get('num_full_jacs', 2), tol=1e-25)
+
     def op_list_outputs(self, op):
         self.p.model.list_outputs(out_stream=None, residuals=bool(op.get('residuals', True)))
 
@@ -369,11 +373,17 @@ class Sim:
         w = {n: rs.integers(-4, 5, size=int(np.prod(self.own[r['name']][2]['shape']))).astype(float) / 2
              for n, r in zip(ofn, of)}
         self.p.model.run_linearize()
-        Jv = self.p.compute_jacvec_product(ofn, wrn, 'fwd', {k: x.copy() for k, x in v.items()})
-        JTw = self.p.compute_jacvec_product(ofn, wrn, 'rev', {k: x.copy() for k, x in w.items()})
+        # a product in a given direction needs the problem to have been set up for that direction
+        # (reverse transfers only exist after setup(mode='rev'))
+        mode = self.p._orig_mode if getattr(self.p, '_orig_mode', None) in ('fwd', 'rev') else self.p._mode
+        Jv, JTw = {}, {}
+        if mode == 'fwd':
+            Jv = self.p.compute_jacvec_product(ofn, wrn, 'fwd', {k: x.copy() for k, x in v.items()})
+        else:
+            JTw = self.p.compute_jacvec_product(ofn, wrn, 'rev', {k: x.copy() for k, x in w.items()})
         self.st.inc('jacvec')
         return {'v': v, 'w': w, 'Jv': {k: np.array(x) for k, x in Jv.items()},
-                'JTw': {k: np.array(x) for k, x in JTw.items()}, 'of': of, 'wrt': wrt}
+                'JTw': {k: np.array(x) for k, x in JTw.items()}, 'of': of, 'wrt': wrt, 'mode': mode}
 
     def op_linops(self, op):
         """apply_linear fwd vs rev duality on a group, against the reference operator."""
